@@ -892,7 +892,7 @@ const (
 
 func c18Sizes(tier string) (nValues, nSeq int) {
 	if tier == "thorough" {
-		return 500000, 20000
+		return 1500000, 60000
 	}
 	return 40000, 2000
 }
